@@ -19,11 +19,15 @@ import numpy as np
 from harness.common import enc, Z, kids, tag, to_zs, is_err, err_code
 
 PROP = 'C17'
-GENERATORS = ['gen_findcid']
+GENERATORS = ['gen_findcid', 'gen_datamut']
 TRUSTED = [
-    'hand model coq/C17/Model.v of Data.add_component / add_component_link / remove_component (+ cascade) / reorder_components / '
-    'update_id / ComponentID.label / coords setter / update_components / update_values_from_data / DataCollection.append+remove and of '
-    'the hub (delay_callbacks queue, DataCollection handler re-deriving the externally derivable components): tied by correspondence only',
+    'hand model coq/C17/Model.v of Data.add_component / add_component_link / ComponentID.label / coords setter / update_values_from_data / '
+    'DataCollection.append+remove and of the hub (delay_callbacks queue, DataCollection handler re-deriving the externally derivable '
+    'components): tied by correspondence only',
+    'Data.remove_component (+ _removed_derived_that_depend_on), reorder_components, update_id, update_components are regenerated from '
+    'data.py by tools/gen/gen_datamut.py (coq/gen/Gen_datamut.v) and proved equal to the model (coq/C17/GenEquiv.v); trusted there: the '
+    'translator, its prelude of ordered-dict / list primitives, the instance env17 (get_component = lookup in _components, '
+    'ComponentLink.replace_ids as dm_replace_ids, clear_mask_caches = identity, the hub = emit)',
     'the model follows the repaired code (fix commits for F-C03 and F-C14a); on a tree without them the comparison of the externally '
     'derivable ids / ExternallyDerivableComponentsChangedMessage is suspended from the first call that leaves a dangling internal link',
     'numpy / CPython set iteration: the removal order inside update_values_from_data is canonicalised (compared as a multiset)',
@@ -685,8 +689,8 @@ def enc_op(op):
     raise ValueError(op)
 
 
-def enc_case(case, finds):
-    return enc((1, [case['mode'], enc_crd(case['coords']), (0, [(0, [n, l]) for n, l in case['pool']]), Z(finds), 0,
+def enc_case(case, finds, tag_=1):
+    return enc((tag_, [case['mode'], enc_crd(case['coords']), (0, [(0, [n, l]) for n, l in case['pool']]), Z(finds), 0,
                     (0, [enc_op(o) for o in case['ops']])]))
 
 
@@ -787,6 +791,10 @@ def run_real(case, finds=FINDS):
     return init, steps, ex
 
 
+GEN_OPS = ('remove', 'reorder', 'updid', 'updcomps')
+GEN_STATS = {'cases': 0, 'ops': 0}
+
+
 def evaluate(R, cases, stream, model=True, count=True, done=None):
     """run cases on implementation (+ model); report failures; returns list of (case, kind) failures.
     done: results of the implementation runs when the generator has already executed the case"""
@@ -802,7 +810,28 @@ def evaluate(R, cases, stream, model=True, count=True, done=None):
             lines.append(enc_case(case, FINDS))
     outs = R.model(lines) if model else [None] * len(cases)
     failures = []
-    for case, (init, steps), o in zip(cases, reals, outs):
+    # the same cases through the code generated from data.py (run_case tag 2), when they have a translated call
+    gen_cases = [j for j, case in enumerate(cases) if model and any(op[0] in GEN_OPS for op in case['ops'])]
+    gouts = R.model([enc_case(cases[j], FINDS, tag_=2) for j in gen_cases]) if gen_cases else []
+    GEN_STATS['cases'] += len(gen_cases)
+    passes = [(case, real, o, False) for case, real, o in zip(cases, reals, outs)]
+    passes += [(cases[j], reals[j], go, True) for j, go in zip(gen_cases, gouts)]
+    for case, (init, steps), o, is_gen in passes:
+        if is_gen:
+            GEN_STATS['ops'] += sum(1 for op in case['ops'] if op[0] in GEN_OPS)
+            diff = None
+            if is_err(o) or len(kids(o)) - 1 != len(steps):
+                diff = {'step': 0, 'field': 'decode', 'generated': True}
+            else:
+                for i, (s, mt) in enumerate(zip(steps, kids(o)[1:])):
+                    dd = compare(case['ops'][i], s, dec_step(mt), s['tainted'])
+                    if dd is not None:
+                        dd.update(step=i, op=case['ops'][i], generated=True)
+                        diff = dd
+                        break
+            if diff is not None:
+                failures.append((case, 'correspondence', diff.get('step', 0), diff, None))
+            continue
         any_msg = any(s['msgs'] for s in steps)
         changed = len(steps) > 0 and steps[-1]['snap'] != init
         if count:
@@ -1247,6 +1276,10 @@ def run(R):
     stream_malformed(R)
     stream_exhaustive(R)
     stream_random(R)
+    R.stream('generated-code', cases=GEN_STATS['cases'], exhaustive=True, translated_calls=GEN_STATS['ops'],
+             bound='every modelled case of the streams above that has a remove_component / reorder_components / update_id / '
+                   'update_components call, re-run with these calls taken from coq/gen/Gen_datamut.v (translated from data.py) instead of the '
+                   'hand-written model; outcome, messages and the whole structure compared with the implementation after every step')
 
 
 def replay(R, case):
